@@ -231,6 +231,31 @@ def o_planarity(ctx):
     ctx.claim('are_atoms_planar-invariant', bool(L.are_atoms_planar(A)) == bool(L.are_atoms_planar(B)))
 
 
+def shifted_text(txt, vec):
+    out = []
+    for l in txt.split('\n'):
+        if l[:6] in ('ATOM  ', 'HETATM'):
+            c = [float(l[30:38]) + vec[0], float(l[38:46]) + vec[1], float(l[46:54]) + vec[2]]
+            l = l[:30] + '%8.3f%8.3f%8.3f' % tuple(c) + l[54:]
+        if l:
+            out.append(l)
+    return '\n'.join(out) + '\n'
+
+
+def mk_translate_text(name, pos):
+    """the translation written into the file (so that the record reader sees the translated coordinates): the structure moved
+    so that one atom lies exactly on the origin, one grid step beside it, or far away; concrete runs"""
+    def body(ctx):
+        txt, base = baseline(name, False)
+        dx = ctx.choice('offset_from_origin', [0.0, 0.001, -0.001, 50.0])
+        vec = (-pos[0] + dx, -pos[1], -pos[2])
+        other = M.run(shifted_text(txt, vec))
+        M.compare_heavy(ctx, 'pose(text)', base, other)
+        M.compare_results(ctx, 'pose(text)', base, other, tol=TOL)
+        ctx.claim('same-number-of-atoms', len(base.conformations['1A'].atoms) == len(other.conformations['1A'].atoms))
+    return body
+
+
 def obligations(tier):
     code_pipe = ['propka/run.py:single', 'propka/input.py:read_molecule_file', 'propka/bonds.py:BondMaker.find_bonds_for_atoms_using_boxes',
                  'propka/conformation_container.py:ConformationContainer.extract_groups', 'propka/conformation_container.py:ConformationContainer.calculate_pka',
@@ -269,6 +294,18 @@ def obligations(tier):
         obs.append(Obligation('O1-translation[%s,%s,built-hydrogens]' % (name, axn), mk_translate(name, ax, 0.0, 2.509, False), code=code_pipe + ['propka/group.py:*Group.setup_atoms', 'propka/group.py:Group.set_center'],
                               bounds='micro-structure %s (atoms after ~ removed from residue @n: an incompletely modelled side chain) shifted by t = k/1000 along %s, t in [0,2.509]' % (name, axn),
                               claim_doc='as O1-translation', max_paths=5000, wall_s=170 if tier == 'quick' else 1200))
+    # one atom exactly on the coordinate origin (and 1-2 grid steps beside it): translations by minus an atom's position
+    for name, serial_index in ([('tri_ASP', 12), ('pair_ASP_ARG', 20)] if tier == 'quick' else [('tri_ASP', 12), ('tri_ASP', 0), ('pair_ASP_ARG', 20), ('tri_HIS', 9), ('pep8', 30), ('tri_LYS', 14)]):
+        at = [l for l in M.text(name).split('\n') if l.startswith('ATOM')][serial_index]
+        pos = (float(at[30:38]), float(at[38:46]), float(at[46:54]))
+        obs.append(Obligation('O1-translation-in-the-text-atom-onto-origin[%s,%s %s]' % (name, at[17:20] + at[22:26].strip(), at[12:16].strip()), mk_translate_text(name, pos),
+                              code=code_pipe + ['propka/input.py:get_atom_lines_from_pdb', 'propka/atom.py:Atom.set_properties'], kind='table-check',
+                              bounds='%s with the translation written into the coordinate columns: atom %s of residue %s at (0,0,0), at (+-0.001,0,0) and at (50,0,0)' % (name, at[12:16].strip(), at[17:20] + at[22:26].strip()),
+                              claim_doc='bonds, groups, desolvation identical; pKa within 0.01; no atom lost', max_paths=50))
+        obs.append(Obligation('O1-translation-atom-onto-origin[%s,%s %s]' % (name, at[17:20] + at[22:26].strip(), at[12:16].strip()), mk_translate(name, (0,), -0.002, 0.002, False, pre=tuple(-c for c in pos)),
+                              code=code_pipe + ['propka/input.py:get_atom_lines_from_pdb'],
+                              bounds='%s translated so that atom %s of residue %s lies at (t, 0, 0), t = k/1000 in [-0.002, 0.002] (exactly on the origin for k = 0)' % (name, at[12:16].strip(), at[17:20] + at[22:26].strip()),
+                              claim_doc='as O1-translation (an atom at 0.000 0.000 0.000 is an atom)', max_paths=200))
     # a protein-ligand-ion micro-complex: the heavy-atom clauses (bonds incl. protein-ligand, protein / ligand / ion groups, desolvation, buried)
     for ax, axn in (axes[:1] if tier == 'quick' else axes[:3]):
         for params, ptag in (((M.BURIED, ',buried'),) if tier == 'quick' else ((None, ''), (M.BURIED, ',buried'))):
